@@ -109,6 +109,11 @@ pub enum BOp {
     ATell { id: u32, gate: Option<usize> },
     AAsk { id: u32, gate: Option<usize> },
     OpenGate(usize),
+    /// n async tells (ids first..first+n) fired at once from tasks on the actor's runtime; their results are not
+    /// tracked one by one (background traffic)
+    Burst { first: u32, n: u32 },
+    /// n plain threads, each inside blocking_ask(.., Some(timeout)) on a message that waits for `gate`; not tracked
+    BgBoundedAsks { first: u32, n: u32, gate: usize, timeout: u64 },
     /// the coordinator lets real time pass
     Wait(u64),
     Stop,
@@ -149,6 +154,9 @@ pub struct BScenario {
     pub cap: usize,
     pub gates: usize,
     pub callers: Vec<BCaller>,
+    /// size of the blocking pool of the actor's runtime (None = tokio's default of 512)
+    #[serde(default)]
+    pub pool: Option<usize>,
 }
 
 #[derive(Debug, Clone, Serialize, Deserialize, PartialEq)]
@@ -284,7 +292,15 @@ pub fn orders(lens: &[usize]) -> Vec<Vec<usize>> {
 
 /// Execute one order of one scenario on a fresh actor.
 pub fn run_order(scn: &BScenario, order: &[usize]) -> BRun {
-    let rt = tokio::runtime::Builder::new_multi_thread().worker_threads(3).enable_all().build().unwrap();
+    let rt = {
+        let mut b = tokio::runtime::Builder::new_multi_thread();
+        b.worker_threads(3).enable_all();
+        if let Some(p) = scn.pool {
+            b.max_blocking_threads(p);
+        }
+        b.build().unwrap()
+    };
+    let mut background: Vec<std::thread::JoinHandle<()>> = Vec::new();
     let log: Arc<Mutex<Vec<(Instant, Log)>>> = Arc::new(Mutex::new(Vec::new()));
     let gates: Arc<Vec<tokio::sync::Semaphore>> = Arc::new((0..scn.gates).map(|_| tokio::sync::Semaphore::new(0)).collect());
     #[cfg(feature = "f_testutils")]
@@ -385,6 +401,32 @@ pub fn run_order(scn: &BScenario, order: &[usize]) -> BRun {
         match (&op, c.ctx) {
             (BOp::Wait(ms), _) => {
                 std::thread::sleep(Duration::from_millis(*ms));
+                let o = ops.last_mut().unwrap();
+                o.end_ms = Some(t0.elapsed().as_millis() as u64);
+                o.res = Some(BRes::Ok);
+                o.ended_by_step = Some(step);
+            }
+            (BOp::Burst { first, n }, _) => {
+                for k in 0..*n {
+                    let r = aref.clone();
+                    let id = first + k;
+                    tasks.push(rt.spawn(async move {
+                        let _ = r.tell(Work(id, None)).await;
+                    }));
+                }
+                let o = ops.last_mut().unwrap();
+                o.end_ms = Some(t0.elapsed().as_millis() as u64);
+                o.res = Some(BRes::Ok);
+                o.ended_by_step = Some(step);
+            }
+            (BOp::BgBoundedAsks { first, n, gate, timeout }, _) => {
+                for k in 0..*n {
+                    let r = aref.clone();
+                    let (id, gate, timeout) = (first + k, *gate, *timeout);
+                    background.push(std::thread::spawn(move || {
+                        let _ = r.blocking_ask(Work(id, Some(gate)), Some(Duration::from_millis(timeout)));
+                    }));
+                }
                 let o = ops.last_mut().unwrap();
                 o.end_ms = Some(t0.elapsed().as_millis() as u64);
                 o.res = Some(BRes::Ok);
@@ -539,6 +581,15 @@ pub fn run_order(scn: &BScenario, order: &[usize]) -> BRun {
     #[cfg(not(feature = "f_testutils"))]
     let dl_count = None;
     let log: Vec<(u64, Log)> = log.lock().unwrap().iter().map(|(t, l)| (t.duration_since(t0).as_millis() as u64, l.clone())).collect();
+    let bg_give_up = Instant::now() + Duration::from_millis(4000);
+    for t in background {
+        while !t.is_finished() && Instant::now() < bg_give_up {
+            std::thread::sleep(Duration::from_millis(10));
+        }
+        if t.is_finished() {
+            let _ = t.join();
+        }
+    }
     let actor_id = aref.identity().id;
     drop(aref);
     rt.shutdown_timeout(Duration::from_millis(200));
@@ -704,7 +755,7 @@ pub fn check_run(scn: &BScenario, run: &BRun) -> Vec<(String, String)> {
     // dead letters: exactly one per failed delivery
     // (scenarios with messages whose destructor panics are left out of the accounting clauses: depending on where the
     // message is dropped, the unwinding does or does not skip the record)
-    let has_precious = run.ops.iter().any(|o| op_id(&o.op).map(is_precious_id).unwrap_or(false));
+    let has_precious = run.ops.iter().any(|o| op_id(&o.op).map(is_precious_id).unwrap_or(false) || matches!(o.op, BOp::Burst { .. } | BOp::BgBoundedAsks { .. }));
     if let Some(dl) = run.dl_count {
         if dl != failures && !has_precious {
             v("C17 one dead letter per failed delivery", format!("dead_letter_count() = {dl}, failed operations = {failures}"));
@@ -791,6 +842,7 @@ pub fn scenarios(thorough: bool) -> Vec<BScenario> {
         name: "b1-mixed-cap1".into(),
         cap: 1,
         gates: 1,
+        pool: None,
         callers: vec![
             BCaller { erased: false, ctx: Ctx::Thread, ops: vec![t(1, Some(0), None), t(2, None, None)] },
             BCaller { erased: false, ctx: Ctx::Thread, ops: vec![a(3, None, None)] },
@@ -807,6 +859,7 @@ pub fn scenarios(thorough: bool) -> Vec<BScenario> {
             name: format!("b2-timeouts-{to}"),
             cap: 1,
             gates: 1,
+        pool: None,
             callers: vec![
                 BCaller { erased: false, ctx: Ctx::Thread, ops: vec![t(1, Some(0), None), t(2, None, None)] },
                 BCaller { erased: false, ctx: Ctx::Thread, ops: vec![t(3, None, Some(to))] },
@@ -821,6 +874,7 @@ pub fn scenarios(thorough: bool) -> Vec<BScenario> {
             name: format!("b3-ending-{end:?}"),
             cap: 2,
             gates: 1,
+        pool: None,
             callers: vec![
                 BCaller { erased: false, ctx: Ctx::Thread, ops: vec![a(1, Some(0), None)] },
                 BCaller { erased: false, ctx: Ctx::Thread, ops: vec![a(2, None, None), t(3, None, Some(50))] },
@@ -833,6 +887,7 @@ pub fn scenarios(thorough: bool) -> Vec<BScenario> {
         name: "b4-aliases".into(),
         cap: 1,
         gates: 1,
+        pool: None,
         callers: vec![
             BCaller { erased: false, ctx: Ctx::Thread, ops: vec![t(1, Some(0), None), t(2, None, None)] },
             BCaller { erased: false, ctx: Ctx::Thread, ops: vec![BOp::TellAlias { id: 3, gate: None, timeout: Some(30) }] },
@@ -845,6 +900,7 @@ pub fn scenarios(thorough: bool) -> Vec<BScenario> {
         name: "b5-in-async".into(),
         cap: 2,
         gates: 1,
+        pool: None,
         callers: vec![
             BCaller { erased: false, ctx: Ctx::InAsync, ops: vec![a(1, Some(0), Some(60))] },
             BCaller { erased: false, ctx: Ctx::InAsync, ops: vec![t(2, None, Some(60))] },
@@ -858,6 +914,7 @@ pub fn scenarios(thorough: bool) -> Vec<BScenario> {
             name: format!("b7-gave-up-then-{end:?}"),
             cap: 2,
             gates: 1,
+        pool: None,
             callers: vec![
                 BCaller { erased: false, ctx: Ctx::Thread, ops: vec![t(1, Some(0), None)] },
                 BCaller { erased: false, ctx: Ctx::Thread, ops: vec![a(2, None, Some(50)), t(3, None, Some(50))] },
@@ -870,6 +927,7 @@ pub fn scenarios(thorough: bool) -> Vec<BScenario> {
         name: "b8-erased".into(),
         cap: 1,
         gates: 1,
+        pool: None,
         callers: vec![
             BCaller { erased: true, ctx: Ctx::Thread, ops: vec![t(1, Some(0), None), t(2, None, None)] },
             BCaller { erased: true, ctx: Ctx::Thread, ops: vec![t(3, None, Some(50))] },
@@ -882,6 +940,7 @@ pub fn scenarios(thorough: bool) -> Vec<BScenario> {
         name: "b9-spawn-blocking-full".into(),
         cap: 1,
         gates: 1,
+        pool: None,
         callers: vec![
             BCaller { erased: false, ctx: Ctx::Thread, ops: vec![t(1, Some(0), None), t(2, None, None)] },
             BCaller { erased: false, ctx: Ctx::SpawnBlocking, ops: vec![t(3, None, None)] },
@@ -894,6 +953,7 @@ pub fn scenarios(thorough: bool) -> Vec<BScenario> {
         name: "b10a-deadline-held-tell".into(),
         cap: 1,
         gates: 1,
+        pool: None,
         callers: vec![
             BCaller { erased: false, ctx: Ctx::Thread, ops: vec![t(1, Some(0), None), t(2, None, None)] },
             BCaller { erased: true, ctx: Ctx::Thread, ops: vec![t(3, None, Some(50))] },
@@ -904,6 +964,7 @@ pub fn scenarios(thorough: bool) -> Vec<BScenario> {
         name: "b10b-deadline-held-ask".into(),
         cap: 2,
         gates: 1,
+        pool: None,
         callers: vec![
             BCaller { erased: false, ctx: Ctx::Thread, ops: vec![t(1, Some(0), None)] },
             BCaller { erased: true, ctx: Ctx::SpawnBlocking, ops: vec![a(4, None, Some(50))] },
@@ -917,6 +978,7 @@ pub fn scenarios(thorough: bool) -> Vec<BScenario> {
             name: format!("b11-parked-then-{end:?}"),
             cap: 1,
             gates: 1,
+        pool: None,
             callers: vec![
                 BCaller { erased: false, ctx: Ctx::Thread, ops: vec![t(1, Some(0), None), t(2, None, None)] },
                 BCaller { erased: false, ctx: Ctx::Thread, ops: vec![t(3, None, None)] },
@@ -930,6 +992,7 @@ pub fn scenarios(thorough: bool) -> Vec<BScenario> {
         name: "b12-long-and-short-deadline".into(),
         cap: 2,
         gates: 1,
+        pool: None,
         callers: vec![
             BCaller { erased: false, ctx: Ctx::Thread, ops: vec![t(1, Some(0), None), a(2, None, Some(2500))] },
             BCaller { erased: false, ctx: Ctx::Thread, ops: vec![a(3, None, Some(50))] },
@@ -941,6 +1004,7 @@ pub fn scenarios(thorough: bool) -> Vec<BScenario> {
         name: "b13-in-current-thread-runtime".into(),
         cap: 2,
         gates: 1,
+        pool: None,
         callers: vec![
             BCaller { erased: false, ctx: Ctx::InCurrentThread, ops: vec![t(1, None, Some(60)), a(2, Some(0), Some(60))] },
             BCaller { erased: true, ctx: Ctx::InCurrentThread, ops: vec![a(3, None, Some(60))] },
@@ -953,6 +1017,7 @@ pub fn scenarios(thorough: bool) -> Vec<BScenario> {
         name: "b14-crash-parked".into(),
         cap: 1,
         gates: 1,
+        pool: None,
         callers: vec![
             BCaller { erased: false, ctx: Ctx::Thread, ops: vec![t(90, Some(0), None), t(2, None, None)] },
             BCaller { erased: false, ctx: Ctx::Thread, ops: vec![t(3, None, None)] },
@@ -964,6 +1029,7 @@ pub fn scenarios(thorough: bool) -> Vec<BScenario> {
         name: "b15-crash-asker-waiting".into(),
         cap: 2,
         gates: 1,
+        pool: None,
         callers: vec![
             BCaller { erased: false, ctx: Ctx::Thread, ops: vec![a(91, Some(0), None)] },
             BCaller { erased: false, ctx: Ctx::Thread, ops: vec![a(2, None, Some(400)), t(3, None, None)] },
@@ -976,6 +1042,7 @@ pub fn scenarios(thorough: bool) -> Vec<BScenario> {
         name: "b16-in-current-thread-deadline-held".into(),
         cap: 2,
         gates: 1,
+        pool: None,
         callers: vec![
             BCaller { erased: false, ctx: Ctx::InCurrentThread, ops: vec![a(1, Some(0), Some(60))] },
             BCaller { erased: false, ctx: Ctx::Async, ops: vec![BOp::Wait(1000), BOp::OpenGate(0)] },
@@ -986,6 +1053,7 @@ pub fn scenarios(thorough: bool) -> Vec<BScenario> {
         name: "b17-spawn-blocking-bare-runtime".into(),
         cap: 2,
         gates: 1,
+        pool: None,
         callers: vec![
             BCaller { erased: false, ctx: Ctx::SpawnBlockingBareRt, ops: vec![t(1, None, Some(60)), a(2, Some(0), Some(60))] },
             BCaller { erased: true, ctx: Ctx::SpawnBlockingBareRt, ops: vec![a(3, None, Some(60))] },
@@ -998,6 +1066,7 @@ pub fn scenarios(thorough: bool) -> Vec<BScenario> {
         name: "b18-helper-thread-dies".into(),
         cap: 2,
         gates: 0,
+        pool: None,
         callers: vec![
             BCaller { erased: false, ctx: Ctx::Async, ops: vec![BOp::Stop] },
             BCaller { erased: false, ctx: Ctx::Thread, ops: vec![BOp::Wait(100), t(80, None, Some(2000)), a(81, None, Some(2000))] },
@@ -1009,9 +1078,37 @@ pub fn scenarios(thorough: bool) -> Vec<BScenario> {
         name: "b19-spawn-blocking-pool-of-one".into(),
         cap: 2,
         gates: 1,
+        pool: None,
         callers: vec![
             BCaller { erased: false, ctx: Ctx::SpawnBlockingTinyPool, ops: vec![a(1, Some(0), Some(100)), t(2, None, Some(100))] },
             BCaller { erased: false, ctx: Ctx::Async, ops: vec![BOp::Wait(300), BOp::OpenGate(0)] },
+        ],
+    });
+    // S20: the actor is killed with a backlog of 40 while both threads of its runtime's blocking pool sit in
+    // blocking_ask on it: they get their errors and come back
+    v.push(BScenario {
+        name: "b20-killed-with-backlog-pool-of-two".into(),
+        cap: 64,
+        gates: 1,
+        pool: Some(2),
+        callers: vec![
+            BCaller { erased: false, ctx: Ctx::Thread, ops: vec![t(1, Some(0), None)] },
+            BCaller { erased: false, ctx: Ctx::SpawnBlocking, ops: vec![a(50, None, None)] },
+            BCaller { erased: false, ctx: Ctx::SpawnBlocking, ops: vec![a(51, None, None)] },
+            BCaller { erased: false, ctx: Ctx::Async, ops: vec![BOp::Burst { first: 100, n: 40 }, BOp::Kill, BOp::OpenGate(0)] },
+        ],
+    });
+    // S21: twenty threads are inside bounded blocking asks (3 s) on a busy actor when one more bounded ask (100 ms)
+    // is made: it has its own deadline
+    v.push(BScenario {
+        name: "b21-many-bounded-calls-in-flight".into(),
+        cap: 64,
+        gates: 1,
+        pool: None,
+        callers: vec![
+            BCaller { erased: false, ctx: Ctx::Async, ops: vec![BOp::BgBoundedAsks { first: 200, n: 20, gate: 0, timeout: 3000 }] },
+            BCaller { erased: false, ctx: Ctx::Thread, ops: vec![a(9, Some(0), Some(100))] },
+            BCaller { erased: false, ctx: Ctx::Async, ops: vec![BOp::Wait(1500), BOp::OpenGate(0)] },
         ],
     });
     // S6: unusual timeout values
@@ -1019,6 +1116,7 @@ pub fn scenarios(thorough: bool) -> Vec<BScenario> {
         name: "b6-extreme-timeouts".into(),
         cap: 2,
         gates: 0,
+        pool: None,
         callers: vec![
             BCaller { erased: false, ctx: Ctx::Thread, ops: vec![a(1, None, Some(u64::MAX)), t(2, None, Some(u64::MAX))] },
             BCaller { erased: false, ctx: Ctx::SpawnBlocking, ops: vec![a(3, None, Some(0)), t(4, None, Some(0))] },
